@@ -22,6 +22,8 @@ METAS = [
     {"model": "SVS", "model_params": [1.0, "w"]},
     {"model": "X", "study": {"a": [1, 2, {"b": None}]}, "year": 2019, "zfit": {"B0": "gauss"}},
     {"model_params": [0.5], "note": ""},
+    # user keys whose top-level value is None / False / 0 / an empty container: still metadata
+    {"model": "PHSP", "reviewed_by": None, "checked": False, "n": 0, "tags": [], "extra": {}},
 ]
 FS_NAMES = ["K+", "K-", "pi0", "gamma"]
 
